@@ -104,6 +104,7 @@ type FS struct {
 	AuthInitErr  string
 	TeardownIn   string  // "ConnClosed" or "FidDestroy"
 	TeardownGate *vs.Sem // the next ConnClosed or FidDestroy call made for a disconnecting connection parks here (a slow clean-up in the implementation)
+	CancelAuthIO bool    // FlushOp cancels reads / writes on authentication fids too
 	AuthReadGate *vs.Sem // the next AuthRead call parks here (an authentication protocol waiting for the other side)
 	ErrKind      string // what kind of error value the auth callbacks return: "" (*go9p.Error), "plain" (errors.New), "errno" (syscall.Errno), "wrapped" (fmt.Errorf with %w)
 	ErrAll       map[string]string // op name -> error (implementation failure injection)
@@ -624,6 +625,13 @@ func (fs FSFlush) Flush(req *go9p.SrvReq) {
 	_, seen := fs.occOf[req]
 	if fs.NoLateAnswer {
 		fs.mu.Unlock()
+	}
+	if fs.FlushMode == "cancel" && !seen && fs.CancelAuthIO && req.Fid != nil && auxOf(req.Fid) != nil && auxOf(req.Fid).auth {
+		// reads and writes on an authentication fid are carried out by the framework with
+		// the AuthOps callbacks: the request itself is not handed over, its Tflush is
+		fs.cancelled[req] = true
+		req.Flush()
+		return
 	}
 	if fs.FlushMode == "cancel" && seen {
 		if fs.NoLateAnswer {
